@@ -50,6 +50,16 @@ def main():
                 res["demo_without_out"] = out[-800:]
             os.remove(demo_dst)
         rc, out = sh(["git", "-C", wt, "apply", os.path.join(seed, "patch.diff")])
+        if rc != 0:
+            # the tree moved on since the change was written (e.g. the hooks commit): 3-way apply, and keep the rebased diff
+            rc, out = sh(["git", "-C", wt, "apply", "-3", os.path.join(seed, "patch.diff")])
+            if rc == 0:
+                sh(["git", "-C", wt, "reset", "-q"])
+                rc2, rebased = sh(["git", "-C", wt, "diff"])
+                if rc2 == 0 and rebased.strip() and os.environ.get("SEED_REBASE", "1") == "1":
+                    shutil.copy(os.path.join(seed, "patch.diff"), os.path.join(seed, "patch.orig.diff"))
+                    open(os.path.join(seed, "patch.diff"), "w").write(rebased)
+                    res["rebased"] = True
         res["applies"] = rc == 0
         if rc != 0:
             res["apply_out"] = out[-500:]
